@@ -187,10 +187,40 @@ def run(R):
                                     "stderr": e2.decode("utf-8", "replace")[-400:], "tree": cli.tree_json(tree),
                                     "search": search, "replace": replace,
                                     "diff": repr(cli.diff_snap(snap, al.sha_dict(ref)))[:1200]})
+    # a plan saved under a name of the user's choosing, applied LATER by that name while renamify's own default plan file
+    # holds a different, newer plan: what is applied is the named plan and nothing else
+    for i in range(cli_n):
+        tree, search, replace = scenario(g, 1000 + i)
+        a2, b2 = g.term_pair()
+        decoy_s, decoy_r = gen.render(a2, "Snake"), gen.render(b2, "Snake")
+        tree = tree + [{"p": "decoy_notes.txt", "k": "f", "c": (decoy_s + " is mentioned here\n").encode(), "m": 0o644}]
+        name = ["plan.json", "saved/plan.json", "my_plan.json", "./plan.json"][i % 4]
+        with cli.Sandbox(tree) as sb:
+            rc, o, e = sb.run(["--no-auto-init", "plan", search, replace, "--quiet", "--plan-out", name])
+            if rc != 0 or not (sb.root / name).exists():
+                continue
+            try:
+                plan = al.relativize(json.loads((sb.root / name).read_text()), sb.root)
+            except Exception:
+                continue
+            sb.run(["--no-auto-init", "plan", decoy_s, decoy_r, "--quiet"])          # the newer plan at the default location
+            t_now = al.tree_dict([e_ for e_ in sb.tree_entries() if not (e_["p"] == name.lstrip("./") or e_["p"].startswith("saved"))])
+            ref = al.reference_apply(t_now, plan)
+            if isinstance(ref, tuple):
+                continue
+            rc2, o2, e2 = sb.run(["--no-auto-init", "-y", "apply", name])
+            snap = {k: v for k, v in sb.snapshot().items() if not (k == name.lstrip("./") or k == "saved" or k.startswith("saved/"))}
+            R.case(("cli_named_plan", search, replace, name), nontrivial=bool(plan["matches"] or plan["paths"]))
+            out["named_plan_runs"] = out.get("named_plan_runs", 0) + 1
+            if rc2 != 0 or snap != al.sha_dict(ref):
+                out["fail"].append({"why": f"`apply {name}` did not carry out the plan saved under that name (a different plan sits in "
+                                           ".renamify/plan.json)", "rc": rc2, "stderr": e2.decode("utf-8", "replace")[-300:],
+                                    "tree": cli.tree_json(tree), "search": search, "replace": replace, "plan_out": name,
+                                    "decoy": [decoy_s, decoy_r], "diff": repr(cli.diff_snap(snap, al.sha_dict(ref)))[:1000]})
     H.close()
     M.close()
     R.coverage["input_distribution"] = {k: out.get(k, 0) for k in ("hunks", "renames", "dir_renames", "skipped_collision", "shuffled_plans",
-                                                                     "occupied_destination_cases", "collision_refused")}
+                                                                     "occupied_destination_cases", "collision_refused", "named_plan_runs")}
     R.disagreements = len(out["dis"])
     for f in out["fail"][:3]:
         R.violation(f["why"], {"kind": "impl_failure", **f})
